@@ -115,6 +115,25 @@ def make_integer(rule, length_text, fmt):
         n, fail = args["n"], args["fail"]
         df = ff.data_format(fmt)
         field = ff.build_field("Integer", False, length_text, rule, df)
+        # first the cell of the counterexample itself, with the real int() as the parser the stub stood in for
+        cell0 = args["cell"]
+        core = cell0.strip(" ") if fixed else cell0
+        if (rule_items is not None or length_items is None) and core and len(cell0) <= 60 \
+                and not (fixed and (ff.is_other_space(core[0]) or ff.is_other_space(core[-1]))):
+            try:
+                n0 = int(core)
+            except ValueError:
+                n0 = None
+            exp0 = n0 is not None and (ff.in_items(rule_items, n0) if rule_items is not None else -2 ** 31 <= n0 <= 2 ** 31 - 1)
+            try:
+                r0 = field.validated(cell0)
+                acc0 = True
+            except errors.FieldValueError as e:
+                acc0 = False
+                r0 = e
+            if acc0 != exp0 or (acc0 and (r0 != n0 or type(r0) is not int)):
+                return True, "Integer(length=%r, rule=%r, %s).validated(%r) -> %r although int() gives %r, expected accepted=%s" % (
+                    length_text, rule, fmt, cell0, r0, n0, exp0), "integer-field"
         if fail:
             text = "x"
             exp = False
@@ -149,8 +168,9 @@ def make_integer(rule, length_text, fmt):
     return mk, replay
 
 
-def make_integer_real(rule, length_text, maxlen):
-    """the real int() on symbolic digit texts (canonical form: optional '-', no leading zero)"""
+def make_integer_real(rule, length_text, maxlen, canonical=True):
+    """the real int() on symbolic digit texts (canonical form: optional '-', no leading zero; with
+    canonical=False leading zeros are allowed: '007' denotes 7)"""
     rule_items = INT_RULES[rule]
     length_items = INT_LENGTHS[length_text]
 
@@ -164,8 +184,9 @@ def make_integer_real(rule, length_text, maxlen):
             assume(len(digits) >= 1)
             for c in digits:
                 assume(48 <= ord(c) <= 57)
-            assume(len(digits) == 1 or ord(digits[0]) != 48)
-            assume(not (neg and len(digits) == 1 and ord(digits[0]) == 48))
+            if canonical:
+                assume(len(digits) == 1 or ord(digits[0]) != 48)
+                assume(not (neg and len(digits) == 1 and ord(digits[0]) == 48))
             if length_items is not None:
                 assume(ff.in_items(length_items, len(cell)))
             n = 0
@@ -829,6 +850,9 @@ def build(tier, seed):
         q.append(Query("C02/Integer-real-int/len=%r/rule=%r" % (lt, rule), "integer-real", make_integer_real(rule, lt, 3 if tier == "quick" else 4),
                        "real int(): canonical digit texts up to %d characters" % (3 if tier == "quick" else 4), budget_s=600,
                        per_path_timeout=60, expect=("acc",), functions=FUNCS, stubs=("S-FMT",)))
+    q.append(Query("C02/Integer-real-int/leading-zeros/rule='0...99'", "integer-real", make_integer_real("0...99", "", 4 if tier == "quick" else 5, canonical=False),
+                   "real int(): digit texts with leading zeros ('007' denotes 7) up to %d characters" % (4 if tier == "quick" else 5), budget_s=600,
+                   per_path_timeout=60, expect=("acc", "out"), functions=FUNCS, stubs=("S-FMT",)))
     # Decimal
     dec = []
     for rule in DEC_RULES:
